@@ -151,6 +151,32 @@ TEMPLATE_FENS = [
 ]
 
 
+# positions at the limits: most legal moves known (218, 216), many promoted men, crowded boards
+EXTREME_FENS = [
+    "R6R/3Q4/1Q4Q1/4Q3/2Q4Q/Q4Q2/pp1Q4/kBNN1KB1 w - - 0 1",
+    "3Q4/1Q4Q1/4Q3/2Q4R/Q4Q2/3Q4/NR4Q1/kN1BB1K1 w - - 0 1",
+    "Kbnn1kb1/PP1q4/q4q2/2q4q/4q3/1q4q1/3q4/r6r b - - 0 1",
+    "rnbqkbnr/pppppppp/8/8/8/8/PPPPPPPP/RNBQKBNR w KQkq - 0 1",
+    "r3k2r/p1ppqpb1/bn2pnp1/3PN3/1p2P3/2N2Q1p/PPPBBPPP/R3K2R w KQkq - 0 1",
+    "4k3/8/8/8/8/8/8/4K3 w - - 0 1",
+]
+
+
+def template_many_queens(rng):
+    """up to nine queens (or rooks / knights) for one side: long move lists"""
+    b = {}
+    heavy = rng.choice("QQQRN")
+    n = rng.randrange(5, 10)
+    sqs = rng.sample(range(64), n + 2)
+    for s0 in sqs[:n]:
+        b[s0] = heavy
+    b[sqs[n]] = "K"
+    free = [q for q in range(64) if q not in b and max(abs(q % 8 - sqs[n] % 8), abs(q // 8 - sqs[n] // 8)) > 1]
+    b[rng.choice(free)] = "k"
+    b = rand_extra(rng, b, rng.randrange(0, 5), allow_pawns=False)
+    return fen_of(b, "w")
+
+
 def rand_extra(rng, board, n, allow_pawns=True):
     """add up to n random men (never kings) on free squares"""
     b = dict(board)
@@ -325,7 +351,7 @@ def template_kxr(rng):
     return fen_of(b, "w", cas)
 
 
-TEMPLATES = [("kxr", template_kxr), ("pin", template_pin), ("check", template_check), ("ep", template_ep),
+TEMPLATES = [("many", template_many_queens), ("kxr", template_kxr), ("pin", template_pin), ("check", template_check), ("ep", template_ep),
              ("castle960", template_castle), ("promo", template_promo)]
 
 
@@ -358,6 +384,7 @@ def build_pool(run, n_playouts, plies, n_templates, tag):
     seeds = [("startpos", "rnbqkbnr/pppppppp/8/8/8/8/PPPPPPPP/RNBQKBNR w KQkq - 0 1")]
     seeds += [("suite", f) for f in harvest_fens()]
     seeds += [("template", f) for f in TEMPLATE_FENS] + [("template", mirror_fen(f)) for f in TEMPLATE_FENS]
+    seeds += [("extreme", f) for f in EXTREME_FENS]
     for _ in range(max(8, n_playouts // 6)):
         n = rng.randrange(960)
         seeds.append(("c960", start960(n, n, shredder=rng.random() < 0.5)))
